@@ -362,11 +362,13 @@ def changing_cfl_calls():
     of some cell is not nit x CFL x step x (its own factor with dtlocal)"""
     spread = np.array([2.0, 1.0, 4.0, 1.5])
     for cn in ("explicit", "rk2", "rk2_heun"):
-        for dtlocal in (False, True):
+        for mode in ("global", "local", "local-then-global", "global-then-local"):
             for islin in (0, 1):
                 S = Session(cn, ncell=4, profile="c4", dtlocal_spread=True, rhs_mode="one", islinear=islin)
                 prev = None
-                for (op, cfl, nmax) in (("solve", 0.5, 4), ("restart", 1.0, 3), ("solve", 2.0, 2), ("restart", 0.25, 2)):
+                for k, (op, cfl, nmax) in enumerate((("solve", 0.5, 4), ("restart", 1.0, 3), ("solve", 2.0, 2), ("restart", 0.25, 2))):
+                    # the directive belongs to the call: given to one call, it does not reach the next
+                    dtlocal = {"global": False, "local": True, "local-then-global": k % 2 == 0, "global-then-local": k % 2 == 1}[mode]
                     arg = S.f0 if op == "solve" else prev[-1]
                     raw, res = S.call(op, arg, cfl, [], {"maxit": nmax}, directives={"dtlocal": True} if dtlocal else None)
                     raw["rhs_mode"] = "one"
@@ -484,7 +486,7 @@ def trace_of(raws, froms, kind, prof, t0, tid):
                            tot=L(r["tot"]) if r["tot"] is not None else -1,
                            maxit=int(r["maxit"]) if r["maxit"] is not None else -1,
                            freqs=r["freqs_arg"], id=ids(r["b0"]), t=L(r["t0"]), it=int(r["it0"]),
-                           cfl=int(r.get("cfl", 1.0))))
+                           cfl=int(r.get("cfl", 1.0)), dtl=bool(r.get("dtlocal"))))
         if float(r.get("cfl", 1.0)) != int(r.get("cfl", 1.0)):
             ok = False
         cur = None
